@@ -135,6 +135,10 @@ class LenEval(object):
             g = norm(expr.test)
             a = self.length(expr.body, func, ctx, env)
             b = self.length(expr.orelse, func, ctx, env)
+            if not a and b:
+                # `0 if c else B` is `B if not c else 0` (the canonical form spells a two-armed choice with the positive relation)
+                from .canon import _negate
+                return guarded(norm(_negate(expr.test)), b)
             out = guarded(g, a)
             if b:
                 out = add(out, guarded('not (%s)' % g, b))
@@ -369,6 +373,9 @@ class LenEval(object):
             g = self._canon_text(expr.test, env)
             a = self.intform(expr.body, func, ctx, env)
             b = self.intform(expr.orelse, func, ctx, env)
+            if not a and b:
+                from .canon import _negate
+                return guarded(self._canon_text(_negate(expr.test), env), b)
             out = guarded(g, a)
             if b:
                 out = add(out, guarded('not (%s)' % g, b))
